@@ -329,7 +329,7 @@ func checkC05(c *Ctx) {
 	r1 := tlcScan(c, tiny, 20*time.Minute, nil)
 	bombTiny := baseCfg("Scan_Bomb_tinycaps", "Bomb")
 	bombTiny.Cap32, bombTiny.Cap64, bombTiny.Abstract = 7, 63, true
-	bombTiny.NTree, bombTiny.MaxEnt, bombTiny.NameLens, bombTiny.CSizes = 5, 3, "Seq_1_2_3", "CSizes_tiny"
+	bombTiny.NTree, bombTiny.MaxEnt, bombTiny.NameLens, bombTiny.CSizes = 5, 3, "Seq_1_2_3_2", "CSizes_tiny"
 	bombTiny.EntKinds = []string{"file", "link", "sub", "tree"}
 	r2 := tlcScan(c, bombTiny, 20*time.Minute, nil)
 	c.Note("TLC Scan with Cap32=7, Cap64=63: Trees %d states, Bomb %d states: every field = min(true value, capacity)", r1.Distinct, r2.Distinct)
@@ -339,7 +339,7 @@ func checkC05(c *Ctx) {
 	s := &scanRun{c: c, env: env, p: p, src: map[string]map[string]interface{}{}, traces: map[string][]map[string]interface{}{}}
 	bomb := baseCfg("Scan_Bomb_narrow", "Bomb")
 	bomb.Cap32, bomb.Cap64 = 255, 65535
-	bomb.NTree, bomb.MaxEnt, bomb.NameLens, bomb.CSizes = 6, 3, "Seq_1_2_3", "Seq_200"
+	bomb.NTree, bomb.MaxEnt, bomb.NameLens, bomb.CSizes = 6, 3, "Seq_1_2_3_2", "Seq_200"
 	bomb.BlobSizes = "Seq_200"
 	bomb.EntKinds = []string{"file", "link", "sub", "tree"}
 	trn := baseCfg("Scan_Trees_narrow", "Trees")
@@ -457,6 +457,8 @@ func checkC05(c *Ctx) {
 	}
 	t1 := time.Now()
 	runs := env.parallelCLI(bombs, cliOpt{Formats: true, Progress: true}, 8)
+	// a saturated quantity is reported whatever the threshold: the same bombs with a huge threshold
+	hi := env.parallelCLI(bombs, cliOpt{Formats: true, NoTrace: true, TableArgs: []string{"--threshold=1e30"}}, 8)
 	var bj []map[string]interface{}
 	byID := map[string]*cliRun{}
 	for i, r := range runs {
@@ -486,7 +488,16 @@ func checkC05(c *Ctx) {
 				Input: map[string]interface{}{"case": r.Case}, Observed: map[string]interface{}{"timeout": true}})
 		}
 	}
-	c.CountEval(int64(len(runs)))
+	for _, r := range hi {
+		if r == nil {
+			continue
+		}
+		jc := bigJudgeCase(r)
+		jc["id"] = r.Case.ID + "@1e30"
+		byID[r.Case.ID+"@1e30"] = r
+		bj = append(bj, jc)
+	}
+	c.CountEval(int64(len(runs) + len(hi)))
 	bv := runBigJudge(c, bj)
 	nsat := 0
 	for id, v := range bv {
